@@ -59,14 +59,19 @@ KSI_TlvElement g_md_first;                    /* its first element */
 KSI_TlvElement g_md_found;                    /* identity of the element KSI_TlvElement_getElement hands out */
 KSI_LIST(KSI_TlvElement) g_md_sublist;
 
+#ifdef MD_BOUND       /* bounded stand-in job: at most MD_BOUND chains and MD_BOUND links per chain */
+#define MD_MAX_LIST ((size_t)3)
+#define MD_CLAMP(n) ((n) > (size_t)MD_BOUND ? (size_t)MD_BOUND : (n))
+#else
 #define MD_MAX_LIST ((size_t)0x0fffffffffffffffULL)
+#define MD_CLAMP(n) (n)
+#endif
 #define MD_N_EFF(sig) ((sig)->aggregationChainList != NULL ? g_md_nchains : (size_t)0)
 
-static int md_padding_ok(const KSI_FTLV *f, const unsigned char *b) {
-	return spec_metadata_padding_ok(f->tag, f->is_nc, f->is_fwd, b[0], f->dat_len,
-		f->dat_len >= 1 ? b[f->hdr_len] : 0u, f->dat_len >= 2 ? b[f->hdr_len + 1] : 0u);
+static int md_first_is_padding_ok(void) {
+	return spec_metadata_padding_ok(g_md_first.ftlv.tag, g_md_first.ftlv.is_nc, g_md_first.ftlv.is_fwd, g_md_bytes.first[0], g_md_first.ftlv.dat_len,
+		g_md_first.ftlv.dat_len >= 1 ? g_md_bytes.first[g_md_first.ftlv.hdr_len] : 0u, g_md_first.ftlv.dat_len >= 2 ? g_md_bytes.first[g_md_first.ftlv.hdr_len + 1] : 0u);
 }
-static int md_first_is_padding_ok(void) { return md_padding_ok(&g_md_first.ftlv, g_md_bytes.first); }
 
 static size_t md_chains_length(KSI_LIST(KSI_AggregationHashChain) *l) { return g_md_nchains; }
 static int md_chains_elementAt(KSI_LIST(KSI_AggregationHashChain) *l, size_t pos, KSI_AggregationHashChain **o) {
@@ -75,7 +80,7 @@ static int md_chains_elementAt(KSI_LIST(KSI_AggregationHashChain) *l, size_t pos
 	__CPROVER_assert(!g.fail && !g.na, "protocol: no chain is fetched after the verdict is determined");
 	__CPROVER_assert(pos == c.ccalls && pos < g_md_nchains, "protocol: every chain once, first to last");
 	__CPROVER_assert(c.ccalls == 0 || g.lcalls == c.nlinks, "protocol: every link of the previous chain was inspected");
-	c.nlinks = nondet_size() & MD_MAX_LIST; g.lcalls = 0;
+	c.nlinks = MD_CLAMP(nondet_size() & MD_MAX_LIST); g.lcalls = 0;
 	c.ccalls++;
 	g_mdc = c; g_md = g;
 	*o = &g_md_chain;
@@ -107,7 +112,7 @@ static int md_links_elementAt(KSI_LIST(KSI_HashChainLink) *l, size_t pos, KSI_Ha
 		ff.dat_len = ff.dat_len & 0xffff;
 		g_md_el.ftlv = fr; g_md_first.ftlv = ff; g_md_bytes = by;
 		/* the property's verdict for this record */
-		cls = spec_md_record(g.unsplit, g.npad, md_padding_ok(&ff, by.first), fr.dat_len, by.rec[fr.hdr_len]);
+		cls = spec_md_record(g.unsplit, g.npad, md_first_is_padding_ok(), g_md_el.ftlv.dat_len, g_md_bytes.rec[g_md_el.ftlv.hdr_len]);
 		if (cls == SPEC_MD_REFUSE) g.fail = 1;
 		else if (cls == SPEC_MD_NA) g.na = 1;
 		g.records++;
@@ -149,7 +154,7 @@ static void md_world_init(void) {
 	g_vr_chainlist.length = md_chains_length; g_vr_chainlist.elementAt = md_chains_elementAt;
 	g_md_linklist.length = md_links_length; g_md_linklist.elementAt = md_links_elementAt;
 	g_md_sublist.length = md_sub_length; g_md_sublist.elementAt = md_sub_elementAt;
-	g_md_nchains = nondet_size() & MD_MAX_LIST; g_mdc.ccalls = 0; g_mdc.nlinks = 0; g_md.lcalls = 0;
+	g_md_nchains = MD_CLAMP(nondet_size() & MD_MAX_LIST); g_mdc.ccalls = 0; g_mdc.nlinks = 0; g_md.lcalls = 0;
 	g_md.fail = 0; g_md.na = 0; g_md.elref = 0; g_md.has = 0; g_md.unsplit = 0; g_md.npad = 0; g_md.ge_status = 0; g_md.records = 0;
 	g_md_chain.ctx = VR_CTX; g_md_chain.ref = 1; g_md_chain.chain = &g_md_linklist;
 	g_md_chain.aggregationTime = NULL; g_md_chain.chainIndex = NULL; g_md_chain.inputData = NULL; g_md_chain.inputHash = NULL;
